@@ -69,6 +69,12 @@ class WireTap:
 
         del self.pdus[:]
         self.real_send(primitive, context_id)
+        return self.collect(context_id)
+
+    def collect(self, context_id):
+        """What the peer's DIMSE provider makes of the P-DATA handed to the DUL so far (also after send_msg raised)."""
+        from pynetdicom.dimse_messages import DIMSEMessage
+
         msg = DIMSEMessage()
         done, pdv = False, []
         for p in list(self.pdus):
